@@ -93,7 +93,11 @@ int main(void)
 {
   W_setup();
   for (int j = 0; j < NDATA; j++) cx_data[j] = nondet_u8();
+#ifdef NFIX
+  cx_n = NFIX; NSEL = NFIX; return run();                /* one query per data length */
+#else
   cx_n = nondet_u8(); VF_ASSUME(cx_n <= NDATA);
   for (NSEL = 0; NSEL <= NDATA; NSEL++) if (cx_n == NSEL) return run();
   return 0;
+#endif
 }
